@@ -548,7 +548,31 @@ func (w *world) fusion(stepI int, opm map[string]any, o *obsRec, live map[int]bo
 			for ai, alpha := range []float64{0, 0.5, 1} {
 				for ki, k := range ks {
 					if ki == 1 && alpha == 0.5 {
-						continue // the formula needs every live document in the vector result: k >= |L|
+						// the formula needs every live document in the vector result (k >= |L|): the engine fuses the
+						// top-k of each side, so with a smaller k a document outside the vector top-k carries no
+						// vector term.  Not judged; measured (how often the result differs from the formula's top-k).
+						if k < len(L) && len(C) > 0 {
+							if hits, err := w.search("VSearch", qv, k, filter, text, alpha); err == nil {
+								w.res.HalfSmallK++
+								fz := map[int]float64{}
+								for d := range L {
+									ts := 0.0
+									if C[d] && maxbm > 0 {
+										ts = bm[d] / maxbm
+									}
+									fz[d] = alpha/(1+float64(vrk[d])) + (1-alpha)*ts
+								}
+								frk, _ := denseRank(nd, keys(L), fz, tolBM25)
+								res := make([]int, len(hits))
+								for i, hh := range hits {
+									res[i] = hh.d
+								}
+								if !topK(res, L, frk, k) {
+									w.res.HalfSmallKDiffers++
+								}
+							}
+						}
+						continue
 					}
 					api := apis[0]
 					if (ai+ki+rot)%4 == 3 {
